@@ -10,12 +10,21 @@ pub struct SessionCfg {
     pub extra_vocab: usize,
     /// check mask == validate == commit for every token id at every state
     pub check_all_tokens: bool,
+    /// multi-byte tokens cut out of strings of the grammar (tokens spanning several lexemes)
+    pub derived_vocab: bool,
 }
 
 pub fn session_case(rng: &mut Rng, out: &mut Out, cfg: &SessionCfg, prop: &str) {
     let g = gen_gram(rng);
-    let (ws, eos) = if rng.chance(1, 5) { single_byte_vocab() } else { gen_engine_vocab(rng, cfg.extra_vocab) };
     let lark = g.to_lark();
+    let (ws, eos) = if rng.chance(1, 5) {
+        single_byte_vocab()
+    } else {
+        match if cfg.derived_vocab { derived_vocab(rng, &lark, cfg.extra_vocab, false) } else { None } {
+            Some(v) => v,
+            None => gen_engine_vocab(rng, cfg.extra_vocab),
+        }
+    };
     let env = make_env(&ws, eos, false);
     let mut m = match new_matcher(&env, &lark, &[]) {
         Ok(m) => m,
@@ -156,9 +165,12 @@ pub fn session_case(rng: &mut Rng, out: &mut Out, cfg: &SessionCfg, prop: &str) 
 
 pub fn run(rng: &mut Rng, out: &mut Out, tier: &str) {
     let n = if tier == "thorough" { 6000 } else { 500 };
-    let cfg = SessionCfg { steps: 8, extra_vocab: 40, check_all_tokens: true };
+    let cfg = SessionCfg { steps: 8, extra_vocab: 40, check_all_tokens: true, derived_vocab: false };
+    let cfg2 = SessionCfg { steps: 8, extra_vocab: 40, check_all_tokens: true, derived_vocab: true };
     for i in 0..n {
         let mut r = rng.fork(i as u64);
         session_case(&mut r, out, &cfg, "C01");
+        let mut r = rng.fork(0x0100_0000 + i as u64);
+        session_case(&mut r, out, &cfg2, "C01");
     }
 }
